@@ -123,9 +123,49 @@ fn spellings(ctx: &mut Ctx) {
     ctx.count("spelling_names", total);
 }
 
+// Stale files of an earlier process with the same pid, sitting at numbers this process has not handed out yet: whatever
+// the function does about existing files, concurrent callers must still get distinct paths.
+fn stale_files(ctx: &mut Ctx) {
+    if cfg!(miri) { return; }
+    let rounds = ctx.size(3, 20);
+    for r in 0..rounds {
+        if !ctx.begin_case() { continue; }
+        let part = format!("vmon-stale-{}-{}", ctx.shard, r);
+        let first = serialize::temp_file_name(&part);
+        let dir = match first.parent() { Some(d) => d.to_path_buf(), None => { ctx.inconclusive("temporary file name without a directory".to_string()); return; } };
+        let file = first.file_name().map(|f| f.to_string_lossy().to_string()).unwrap_or_default();
+        let fields: Vec<&str> = file.rsplitn(3, '_').collect();
+        let (count, pid) = match (fields.first().and_then(|x| x.parse::<u64>().ok()), fields.get(1)) { (Some(c), Some(p)) => (c, p.to_string()), _ => { ctx.count("stale.unparsed_names", 1); continue; } };
+        let mut created: Vec<std::path::PathBuf> = Vec::new();
+        for k in (1..3000u64).filter(|k| k % 2 == 1 || k % 7 == 0) {
+            let p = dir.join(format!("{}_{}_{}", part, pid, count + k));
+            if std::fs::write(&p, b"stale").is_ok() { created.push(p); }
+        }
+        let threads = 4 + r % 5;
+        let calls = 300;
+        let barrier = Arc::new(Barrier::new(threads));
+        let handles: Vec<_> = (0..threads).map(|_| { let (b, part) = (barrier.clone(), part.clone()); std::thread::spawn(move || { b.wait(); (0..calls).map(|_| serialize::temp_file_name(&part).to_string_lossy().to_string()).collect::<Vec<String>>() }) }).collect();
+        let mut seen: HashSet<String> = HashSet::new();
+        seen.insert(first.to_string_lossy().to_string());
+        let mut dup: Option<String> = None;
+        let mut total = 0usize;
+        for h in handles {
+            match h.join() {
+                Ok(v) => for p in v { total += 1; ctx.checks += 1; if !p.rsplit('/').next().unwrap_or("").contains(&part) { ctx.violation("temp_file_name.name_part", format!("path {} does not contain the name part {}", p, part)); } if !seen.insert(p.clone()) && dup.is_none() { dup = Some(p); } },
+                Err(_) => ctx.violation("temp_file_name!panic", "a thread panicked while stale files were present".to_string()),
+            }
+        }
+        for p in created.iter() { let _ = std::fs::remove_file(p); }
+        if let Some(p) = dup { ctx.violation("temp_file_name.duplicate.stale_files", format!("path {} was returned twice ({} threads x {} calls) while {} stale files with future numbers were present", p, threads, calls, created.len())); }
+        ctx.case(hash64(&[0xF7, r as u64, total as u64, created.len() as u64]), true);
+        ctx.sample(|| format!("stale: {} files named like future results pre-created, {} threads x {} calls", created.len(), threads, calls));
+    }
+}
+
 pub fn run(ctx: &mut Ctx) {
     fresh_processes(ctx);
     spellings(ctx);
+    stale_files(ctx);
     let rounds = ctx.size(50, 500);
     let mut all: HashSet<String> = HashSet::new();
     let mut total_switches = 0u64;
